@@ -232,6 +232,78 @@ pub fn literal_line(vm: &mut Vm, z: &Number, radix: u32) -> Option<String> {
     Some(format!("c16-literal {} {} {}\tok {} {}", o.render(), enc_text(&s), radix, lit, via))
 }
 
+/// decimal spellings with a signed exponent (fix c1c04ca), spellings the printers produce, and the
+/// hand-written near-miss family; only characters that cannot end the datum inside `(quote …)`
+pub fn gen_source_spelling(vm: &mut Vm, rng: &mut Rng) -> String {
+    let s = match rng.below(8) {
+        0 | 1 => {
+            // what marwood's printer produces (radix 10)
+            let z = random_number(rng);
+            match call(vm, "number->string", &[Cell::Number(z)]) {
+                Ok(Ok(Cell::String(s))) => s,
+                _ => "0".to_string(),
+            }
+        }
+        2 | 3 => {
+            // what Rust's {:e} produces for a double, with the marker / sign variants string->number accepts
+            let f = match random_number(rng) {
+                Number::Float(f) => f,
+                other => other.to_inexact().and_then(|n| if let Number::Float(f) = n { Some(f) } else { None }).unwrap_or(1e-7),
+            };
+            let mut t = format!("{:e}", f);
+            if rng.chance(1, 3) {
+                t = t.replace('e', "E");
+            }
+            if rng.chance(1, 2) {
+                // an explicit plus on a non-negative exponent
+                if let Some(i) = t.find(['e', 'E']) {
+                    if !t[i + 1..].starts_with('-') {
+                        t.insert(i + 1, '+');
+                    }
+                }
+            }
+            if rng.chance(1, 6) && !t.starts_with('-') {
+                t.insert(0, '+');
+            }
+            if rng.chance(1, 6) && (t.starts_with("0.") || t.starts_with("-0.")) {
+                t = t.replacen("0.", ".", 1);
+            }
+            t
+        }
+        _ => gen_signed_exponent(rng),
+    };
+    s.chars()
+        .filter(|c| c.is_ascii_alphanumeric() || ".+-/_@#".contains(*c))
+        .collect()
+}
+
+/// a spelling used as an unprefixed source literal, against string->number of the spelling
+pub fn source_line(vm: &mut Vm, s: &str) -> String {
+    let src = format!("(quote {})", s);
+    let mut o = Oracle::default();
+    o.add_parse(s, 10, true);
+    oracle_for_text(&src, &mut o);
+    let mut vmref = AssertUnwindSafe(&mut *vm);
+    let src2 = src.clone();
+    let lit = match catch(move || {
+        vmref
+            .eval_text(&src2)
+            .map(|(c, rest)| (c, rest.map(|r| r.to_string())))
+    }) {
+        Err(_) => "panic".to_string(),
+        Ok(Ok((c, None))) => enc_datum(&c),
+        Ok(Ok((_, Some(_)))) => "trailing".to_string(),
+        Ok(Err(Error::ParseError(p))) => format!("err:{}", parse_err_class(&p)),
+        Ok(Err(e)) => format!("err:{}", vm_err_class(&e)),
+    };
+    let via = match call(vm, "string->number", &[Cell::String(s.to_string())]) {
+        Err(_) => "panic".to_string(),
+        Ok(Ok(c)) => enc_datum(&c),
+        Ok(Err(e)) => format!("err:{}", vm_err_class(&e)),
+    };
+    format!("c16-source {} {}\tok {} {}", o.render(), enc_text(s), lit, via)
+}
+
 pub fn exact_only(rng: &mut Rng) -> Number {
     loop {
         let n = random_number(rng);
